@@ -210,14 +210,18 @@ func (h *HandlerResult) checkIdentities(eqs map[string]bool, extra func(o *Outco
 			reports = append(reports, EqReport{Eq: k.Eq, Group: k.Group, Outcome: o, Resid: total, OK: ok, Why: why})
 		}
 	}
-	// pass 2: iteration outcomes, compensated by the accumulator deltas that the exits rely on
-	for _, o := range h.Outs {
-		if o.Kind != exitLoopback {
-			continue
-		}
+	// pass 2: every (exit, iteration) pair sharing the pre-loop path: the iteration's residual plus the
+	// change of the accumulators that THIS exit relies on must vanish.
+	type seenKey struct {
+		o *Outcome
+		k residKey
+		r string
+	}
+	seen := map[seenKey]bool{}
+	paired := map[*Outcome]bool{}
+	evalIter := func(o *Outcome, exit *Outcome) {
 		res := iterRes[o]
 		dl := loopDeltas(o)
-		// groups to evaluate: those with a residual here plus those the exits compensate
 		keys := map[residKey]bool{}
 		for k := range res {
 			if eqs[k.Eq] {
@@ -225,48 +229,65 @@ func (h *HandlerResult) checkIdentities(eqs map[string]bool, extra func(o *Outco
 			}
 		}
 		for _, c := range comps {
-			if loopOfAtom(c.occ.Base) == o.Loop && samePrefix(c.from, o, o.Loop) {
+			if c.from == exit && loopOfAtom(c.occ.Base) == o.Loop {
 				keys[c.key] = true
 			}
 		}
 		for k := range keys {
-			if debugE1 {
-				fmt.Printf("DBG iter %s key=%v comps=%d dl=%v\n", o.Loop, k, len(comps), dl)
-				for _, l := range o.St.loops {
-					for _, ph := range l.Phis {
-						fmt.Printf("    phi %s %s init=%s havoc=%s back=%s\n", l.Tag, ph.Name, vstr(ph.Init), vstr(ph.Havoc), vstr(ph.Back))
-					}
-				}
-				fmt.Printf("    facts=%v\n", o.St.facts)
-			}
 			r, ok := res[k]
 			if !ok {
 				r = linConst(0)
 			}
-			seen := map[string]bool{}
+			dup := map[string]bool{}
 			for _, c := range comps {
-				if c.key != k || loopOfAtom(c.occ.Base) != o.Loop || !samePrefix(c.from, o, o.Loop) {
+				if c.from != exit || c.key != k || loopOfAtom(c.occ.Base) != o.Loop {
 					continue
 				}
 				id := c.occ.Base + strings.Join(c.occ.Tags, "") + c.occ.Coeff.RatString()
-				if seen[id] {
+				if dup[id] {
 					continue
 				}
-				seen[id] = true
+				dup[id] = true
 				if d, has := dl[c.occ.Base]; has {
 					r = r.Add(scaleLin(applyTags(d, c.occ.Tags), c.occ.Coeff))
 				}
 			}
 			r = reduce(r, o.St.eqs)
+			sk := seenKey{o, k, r.String()}
+			if seen[sk] {
+				continue
+			}
+			seen[sk] = true
 			rest, occ := splitLoopAtoms(r)
 			okk, why := true, ""
 			if len(occ) > 0 {
-				// an iteration may not depend on the running value of an accumulator for a ledger identity
 				okk, why = false, "iteration residual depends on loop variable: "+r.String()
 			} else if !rest.IsZero() {
 				okk, why = false, "residual "+rest.String()
+				if exit != nil {
+					why += " (against the successful exit {" + clip(strings.Join(exit.St.facts, " "), 300) + "})"
+				}
 			}
 			reports = append(reports, EqReport{Eq: k.Eq, Group: k.Group, Outcome: o, Resid: r, OK: okk, Why: why})
+		}
+	}
+	for _, ex := range h.Outs {
+		if ex.Kind == exitLoopback {
+			continue
+		}
+		for _, l := range ex.St.loops {
+			for _, o := range h.Outs {
+				if o.Kind == exitLoopback && o.Loop == l.Tag && samePrefix(ex, o, l.Tag) {
+					paired[o] = true
+					evalIter(o, ex)
+				}
+			}
+		}
+	}
+	// iterations with no successful exit sharing their prefix: the raw residual must vanish
+	for _, o := range h.Outs {
+		if o.Kind == exitLoopback && !paired[o] {
+			evalIter(o, nil)
 		}
 	}
 	return reports
